@@ -424,15 +424,25 @@ func TestC16(t *testing.T) {
 		"fallthrough, labels and backward goto, guarded return/panic/break/continue}; thorough tier additionally enumerates every body "+
 		"of the grammar with <= 4 statement nodes; oracle: explicit-state enumeration of (block, defer stack) over the SSA control-flow "+
 		"graph (bounded <=> no defer on a cycle; exact stack sets per exit); non-trivial = >= 2 defers and (>= 2 distinct stacks at some exit "+
-		"or unbounded); distinct = hash of body")
+		"or unbounded); distinct = hash of body; execution half: the bodies with >= 2 defers are also built natively and run under pseudo-random "+
+		"branch outcomes, every normal exit's executed defer order (reversed) must be a member of the reported set of that exit, a run "+
+		"pushing one defer statement twice obliges 'unbounded' (counters native_*)")
 	defer rec.Flush()
 	replayKnown(t, "C16")
 	rapidSetup(env.Pick(12000, 1200000), 16)
+	// bodies kept for the execution half (c16n_test.go): the first ones with >= 2 defers, per shard
+	nativeMax := env.Pick(2400, 24000)
+	var nativeSrcs []string
+	nativeSeen := map[string]bool{}
 	rapid.Check(t, func(rt *rapid.T) {
 		size := 2 + gogen.Uniform(rt, 14, "size")
-		src, _ := c16Program(rapidChooser{rt}, size)
+		src, nd := c16Program(rapidChooser{rt}, size)
 		res, exp := c16Judge(src)
 		c16Record(rec, src, exp)
+		if res == "" && nd >= 2 && len(nativeSrcs) < nativeMax && !nativeSeen[src] {
+			nativeSeen[src] = true
+			nativeSrcs = append(nativeSrcs, src)
+		}
 		if res != "" {
 			msg := env.Report(core.Violation{ID: "C16", Signature: strings.Fields(res)[0] + "-" + strings.Fields(res)[1], What: res, Files: map[string]string{"main.go": src}, Kind: "c16"})
 			rt.Fatalf("%s", msg)
@@ -440,6 +450,23 @@ func TestC16(t *testing.T) {
 	})
 	if t.Failed() {
 		return
+	}
+	// execution half: the kept bodies are built into one native program and run under pseudo-random branch outcomes
+	{
+		var st c16nStats
+		msg, bad, err := c16Native(nativeSrcs, env.Pick(2400, 4800)/env.Pick(8, 8), &st)
+		if err != nil {
+			t.Fatalf("HARNESS: %v", err)
+		}
+		rec.Count("native_functions", st.functions)
+		rec.Count("native_runs_with_normal_exit", st.normalExits)
+		rec.Count("native_exits_judged_against_reported_set", st.judged)
+		rec.Count("native_runs_pushing_a_defer_twice", st.multiPush)
+		rec.Count("native_functions_with_observed_stack_of_2_or_more", st.nontrivial)
+		if msg != "" {
+			m := env.Report(core.Violation{ID: "C16", Signature: "native-" + strings.Fields(msg)[0] + "-" + strings.Fields(msg)[1], What: msg, Files: map[string]string{"main.go": bad}, Kind: "c16n"})
+			t.Fatalf("%s", m)
+		}
 	}
 	// exhaustive enumeration of small bodies (each shard takes its residue class)
 	maxNodes := 3
@@ -488,5 +515,20 @@ func init() {
 		}
 		res, _ := c16Judge(string(b))
 		return res
+	}
+	replayers["c16n"] = func(dir string) string {
+		b, err := os.ReadFile(filepath.Join(dir, "main.go"))
+		if err != nil {
+			return "HARNESS cannot read main.go"
+		}
+		if res, _ := c16Judge(string(b)); res != "" {
+			return res
+		}
+		var st c16nStats
+		msg, _, err := c16Native([]string{string(b)}, 2000, &st)
+		if err != nil {
+			return "HARNESS " + err.Error()
+		}
+		return msg
 	}
 }
